@@ -27,14 +27,14 @@ SLICES = {
     'outline-plain': (BASE, X.tf_outline('function'), X.has_region, 2, X.regions_post(overrides=False, names=False)),
     'outline-fn': (('functions', 'select'), X.tf_outline('function'), X.has_region, 1, X.regions_post()),
     'outline-consts': (('consts', 'localconst', 'select'), X.tf_outline('function'), X.has_region, 1, X.regions_post()),
-    'outline-ovarray': (BASE, X.tf_outline('function'), X.has_region, 1, X.regions_post(ovarray=True)),
+    'outline-ovarray': (BASE, X.tf_outline('function'), X.need(X.has_region, 'region-array-option'), 1, X.regions_post(ovarray=True)),
     'outline-print': (BASE, X.tf_outline('function'), X.has_region, 1, X.regions_post(allow_print=True)),
-    'outline-assoc': (('assoc', 'select'), X.tf_outline('function'), X.has_region, 1, X.regions_post(allow_assoc=True)),
+    'outline-assoc': (('assoc', 'select'), X.tf_outline('function'), X.need(X.has_region, 'region-in-assoc'), 1, X.regions_post(allow_assoc=True)),
     'extract': (BASE + ('internal', 'modsubs', 'nohostarrays'), X.tf_extract('function'), ap_internal, 4),
-    'extract-hostarrays': (('internal', 'select'), X.tf_extract('function'), ap_internal, 1),
+    'extract-hostarrays': (('internal', 'select'), X.tf_extract('function'), X.need(ap_internal, 'host-array-2refs'), 1),
     'extract-xform': (BASE + ('internal', 'nohostarrays'), X.tf_extract('xform'), ap_internal, 2),
     'extract-fn': (('internal', 'internalfn', 'select', 'nohostarrays'), X.tf_extract('function'), ap_internal, 2),
-    'extract-consts': (('internal', 'consts', 'localconst', 'constinternal', 'nohostarrays'), X.tf_extract('function'), ap_internal, 1),
+    'extract-consts': (('internal', 'consts', 'localconst', 'constinternal', 'nohostarrays'), X.tf_extract('function'), X.need(ap_internal, 'const-internal'), 1),
     'extract-outline': (('internal', 'select', 'while', 'nohostarrays'), X.tf_outline('both'), ap_both, 2, X.regions_post()),
 }
 
